@@ -224,6 +224,26 @@ func checkTraversal(c *explore.Ctx, roots []ast.Node, list bool, maxAll int, wit
 					return true
 				})
 			})
+			// a Preorder sequence value must be re-iterable: break at node i, then iterate it again completely
+			if i < n {
+				seq := ast.Preorder(root)
+				second := 0
+				explore.Try(func() {
+					k := 0
+					for range seq {
+						if k == i {
+							break
+						}
+						k++
+					}
+					for range seq {
+						second++
+					}
+				})
+				if second != n {
+					report("C17/preorder-reuse", fmt.Sprintf("iterating the same Preorder sequence again after breaking at node %d yields %d nodes, want %d", i, second, n))
+				}
+			}
 			want := i + 1
 			if want > n {
 				want = n
@@ -362,6 +382,12 @@ func checkPosSpec(n ast.Node) map[string]string {
 		case got != want:
 			viol["C19/"+m.name+"/"+tn] = fmt.Sprintf("%s.%s() = %d, documentation %q evaluates to %d", tn, m.name, got, m.src, want)
 		}
+		// independent reading of the documentation string (does not use the repository's poslang package)
+		if pv1 == nil {
+			if ind, err := oracle.EvalPosDoc(m.src, n); err == nil && ind != got {
+				viol["C19/"+m.name+"/"+tn+"/independent-reading"] = fmt.Sprintf("%s.%s() = %d, but the documented expression %q means %d (the repository's interpreter says %d)", tn, m.name, got, m.src, ind, want)
+			}
+		}
 	}
 	return viol
 }
@@ -468,11 +494,13 @@ func checkWalkFields(c *explore.Ctx, n ast.Node, desc string) {
 	var want []string
 	rv := reflect.ValueOf(n).Elem()
 	for _, f := range def.Fields {
-		if !isNodeTyped(f.Type) {
-			continue
-		}
 		fv := rv.FieldByName(f.Name)
 		if !fv.IsValid() {
+			continue
+		}
+		// node-typed by Go's type system (not by the catalog's own classification, which the generators share)
+		ft := fv.Type()
+		if !(ft.Implements(nodeTypeRT) || ft.Kind() == reflect.Slice && ft.Elem().Implements(nodeTypeRT)) {
 			continue
 		}
 		if fv.Kind() == reflect.Slice {
@@ -498,6 +526,8 @@ func checkWalkFields(c *explore.Ctx, n ast.Node, desc string) {
 		c.Violation("C19/walk-fields/"+tn, "shape: "+desc, fmt.Sprintf("Walk enumerates children %v, the struct's node-typed fields in declaration order are %v", got, want))
 	}
 }
+
+var nodeTypeRT = reflect.TypeOf((*ast.Node)(nil)).Elem()
 
 func isNodeTyped(t astcatalog.Type) bool {
 	switch x := t.(type) {
